@@ -723,3 +723,13 @@ func precedenceOfKinds(kind1 reflect.Kind, kind2 reflect.Kind) reflect.Kind {
 	}
 	return kind1
 }
+
+// interrupted reports whether the context of the run has been cancelled.
+func (runInfo *runInfoStruct) interrupted() bool {
+	select {
+	case <-runInfo.ctx.Done():
+		return true
+	default:
+		return false
+	}
+}
